@@ -17,6 +17,10 @@ import (
 
 var substAlphabet = []byte("{}[],:\"\\0-n\x00\xff")
 
+// insertAlphabet: bytes inserted (not substituted) at every offset - things that look like white
+// space to some libraries but are not JSON white space, and a few structural bytes
+var insertAlphabet = []string{"\v", "\f", "\x85", "\xa0", "\xc2\xa0", "\xef\xbb\xbf", "\x00", "\x1f", " ", ","}
+
 var smallValues = []string{
 	`null`, `[null]`, `{"a":null}`, `[]`, `{}`, `""`, `0`, `{`, `[`, `}`, `]`, ``, ` `, `true`, `"a"`, `[1]`, `[[null]]`, `{"a":[null]}`, `{"":null}`,
 	`[null,null]`, `{"a":{}}`, `{"a":1}`, `[{}]`, `[{"a":null}]`, `1e400`, `-0`, `"\ud800"`, `{"a":1,"a":2}`, `[1,2]`, `{"b":null,"a":null}`,
@@ -251,6 +255,14 @@ func RunEnumWorker(p Params) *Summary {
 						exec(variantScenario(seed, target, doc, patch, merge, t[:n], item), "torn")
 					}
 				}
+				// (b') every insertion of a byte sequence from insertAlphabet at every offset (incl. the end)
+				for off := 0; off <= len(t); off++ {
+					for _, ins := range insertAlphabet {
+						if mine() {
+							exec(variantScenario(seed, target, doc, patch, merge, t[:off]+ins+t[off:], item), "byte-insertion")
+						}
+					}
+				}
 				// (b) every single-byte substitution
 				for off := 0; off < len(t); off++ {
 					for _, sb := range substAlphabet {
@@ -446,6 +458,7 @@ func RunEnumWorker(p Params) *Summary {
 		ws.sum.Exhaustive = []string{
 			fmt.Sprintf("every ordered triple of %d call descriptors as a three-call history x {v5, legacy}", nTriples),
 			fmt.Sprintf("torn input: every proper prefix of %d seeded (document, patch, merge patch) triples x every entry point x {v5, legacy}", K),
+			"insertion of \\v \\f 0x85 0xA0 U+00A0 BOM NUL 0x1F space comma at every offset of the same texts x every entry point x {v5, legacy}",
 			"single-byte substitution from {}[],:\"\\0-n NUL 0xFF at every offset of the same texts x every entry point x {v5, legacy}",
 			fmt.Sprintf("every ordered pair of %d small values x two-argument functions and DecodePatch/Apply x {v5, legacy}", len(smallValues)),
 			"10 operation templates x every small value x 6 documents x {v5, legacy}",
